@@ -4,6 +4,9 @@ Import order matters: `fsmc.tracer_shim` must be imported before anything from l
 """
 import os, sys
 os.environ.setdefault("PYTHONHASHSEED", "0")
-if "/repo" not in sys.path:
-    sys.path.insert(0, "/repo")
+# Checks always run against /repo's working tree.  VERIF_REPO is only for testing the machinery against a scratch
+# worktree carrying a deliberate mutation (never used by the registered commands).
+REPO = os.environ.get("VERIF_REPO", "/repo")
+if REPO not in sys.path:
+    sys.path.insert(0, REPO)
 from . import tracer_shim  # noqa: F401  (installs migen.fhdl.tracer.get_var_name)
